@@ -473,7 +473,7 @@ package main
 //@   note abstract: the type of an expression (inference context)
 
 //@ func GenFuncVar
-//@   props C08 C10 C03
+//@   props C08 C10 C03 C15
 //@   panics may
 //@   ensures plain: len(stlist) == 0 ==> is(VarRef_VRVar, result) && VarRef_VRVar_Value(result).Name == vname
 //@   ensures explicit-type-arguments-kept: len(stlist) > 0 ==> is(VarRef_VRSVar, result) && VarRef_VRSVar_Value(result).Var.Name == vname && VarRef_VRSVar_Value(result).SpecList == stlist
